@@ -349,36 +349,36 @@ const (
 // equalItems is StackItem.Equals(other, limits) of a = x1 with b = x2.
 // zone is set when the result depends on the exact value of a comparison
 // limit or on the traversal order of a struct comparison (see structEqual).
-func equalItems(a, b *Item) (res eqOutcome, zone bool) {
+func equalItems(a, b *Item) (res eqOutcome, zone bool, why string) {
 	switch a.K {
 	case KNull:
-		return eqB(b.K == KNull), false
+		return eqB(b.K == KNull), false, ""
 	case KBool:
-		return eqB(b.K == KBool && a.B == b.B), false
+		return eqB(b.K == KBool && a.B == b.B), false, ""
 	case KInt:
-		return eqB(b.K == KInt && a.I.Cmp(b.I) == 0), false
+		return eqB(b.K == KInt && a.I.Cmp(b.I) == 0), false, ""
 	case KBytes:
 		// ByteString.Equals(other, ref limits) with limits = MaxComparableSize:
 		// own size first, then the type of the other, then the other's size.
 		if len(a.D) > MaxComparableSize {
-			return eqFault, false
+			return eqFault, false, ""
 		}
 		if b.K != KBytes {
-			return eqFalse, false
+			return eqFalse, false, ""
 		}
 		if len(b.D) > MaxComparableSize {
-			return eqFault, false
+			return eqFault, false, ""
 		}
-		return eqB(bytes.Equal(a.D, b.D)), false
+		return eqB(bytes.Equal(a.D, b.D)), false, ""
 	case KBuffer, KArray, KMap:
-		return eqB(a == b), false
+		return eqB(a == b), false, ""
 	case KPointer:
-		return eqB(b.K == KPointer && a.Pos == b.Pos), false
+		return eqB(b.K == KPointer && a.Pos == b.Pos), false, ""
 	case KStruct:
 		if b.K != KStruct {
-			return eqFalse, false
+			return eqFalse, false, ""
 		}
-		prim := structEqual(a, b, MaxStackItems, MaxComparableSize, true)
+		prim := structEqual(a, b, MaxStackItems, MaxComparableSize, true, &why)
 		// The comparison budget (MaxStackSize visited items, MaxComparableSize
 		// comparable units shared by the whole traversal) and the LIFO order are
 		// the reference's; whenever the verdict would change with a budget a few
@@ -387,15 +387,16 @@ func equalItems(a, b *Item) (res eqOutcome, zone bool) {
 		for _, dn := range []int{-3, 3} {
 			for _, db := range []int{-3, 3} {
 				for _, lifo := range []bool{true, false} {
-					if structEqual(a, b, MaxStackItems+dn, MaxComparableSize+db, lifo) != prim {
-						return prim, true
+					var w2 string
+					if structEqual(a, b, MaxStackItems+dn, MaxComparableSize+db, lifo, &w2) != prim {
+						return prim, true, why
 					}
 				}
 			}
 		}
-		return prim, false
+		return prim, false, why
 	}
-	return eqFalse, false
+	return eqFalse, false, ""
 }
 
 func eqB(b bool) eqOutcome {
@@ -409,11 +410,12 @@ func eqB(b bool) eqOutcome {
 // charges one visit per popped pair (at most `count` visits) and comparable
 // units (the larger length for a ByteString pair, at least 1; 1 for anything
 // else) against one budget for the whole traversal.
-func structEqual(a, b *Item, count, budget int, lifo bool) eqOutcome {
+func structEqual(a, b *Item, count, budget int, lifo bool, why *string) eqOutcome {
 	type pair struct{ a, b *Item }
 	st := []pair{{a, b}}
 	for len(st) > 0 {
 		if count == 0 {
+			*why = "struct-equal-visit-count-exceeded"
 			return eqFault
 		}
 		count--
@@ -421,6 +423,7 @@ func structEqual(a, b *Item, count, budget int, lifo bool) eqOutcome {
 		st = st[:len(st)-1]
 		if p.a.K == KBytes {
 			if len(p.a.D) > budget || budget == 0 {
+				*why = "struct-equal-comparable-size-exceeded"
 				return eqFault
 			}
 			if p.b.K != KBytes {
@@ -429,6 +432,7 @@ func structEqual(a, b *Item, count, budget int, lifo bool) eqOutcome {
 			}
 			used := max(len(p.a.D), len(p.b.D), 1)
 			if len(p.b.D) > budget {
+				*why = "struct-equal-comparable-size-exceeded"
 				return eqFault
 			}
 			if !bytes.Equal(p.a.D, p.b.D) {
@@ -438,6 +442,7 @@ func structEqual(a, b *Item, count, budget int, lifo bool) eqOutcome {
 			continue
 		}
 		if budget == 0 {
+			*why = "struct-equal-comparable-size-exceeded"
 			return eqFault
 		}
 		budget--
@@ -457,7 +462,7 @@ func structEqual(a, b *Item, count, budget int, lifo bool) eqOutcome {
 			}
 			continue
 		}
-		r, _ := equalItems(p.a, p.b) // non-struct, non-bytestring: plain Equals
+		r, _, _ := equalItems(p.a, p.b) // non-struct, non-bytestring: plain Equals
 		if r != eqTrue {
 			return eqFalse
 		}
